@@ -1,6 +1,6 @@
 (** C07: -noast parsers accept the same language and feed captures to inline actions. *)
 From PegV Require Import Base.Tac Spec.Syntax Spec.Peg Spec.WF Model.Machine Model.Runtime Model.Optimize Model.Gen
-  Model.Analyses Model.Emit Model.SEmit Model.Exec Proofs.OptSound Proofs.Top Proofs.OptTop Proofs.SEmitFile Proofs.EmitUse Proofs.DeepDefault Proofs.CountInline Proofs.OptClosed Properties.Example.
+  Model.Analyses Model.Emit Model.SEmit Model.Exec Proofs.OptSound Proofs.Top Proofs.OptTop Proofs.SEmitFile Proofs.EmitUse Proofs.DeepDefault Proofs.CountInline Proofs.OptClosed Proofs.ParseTop Properties.Example.
 Local Open Scope nat_scope.
 
 (** A parser generated with -noast (with any -inline decision; with -switch the grammar term is the
@@ -120,6 +120,29 @@ Theorem C07_generated_code_noast_switch :
           match res with Succ p _ => pos st' = p /\ p <= length buf | Fail => True end.
 Proof. exact generated_code_noast_switch_all_options. Qed.
 Print Assumptions C07_generated_code_noast_switch.
+
+(** The language part of the property in one statement, at the level of the statements peg writes and with no side
+    condition: for every grammar with a well-formedness certificate, under either -inline setting and with or without
+    -switch ([tree_of sw g]), on every input and from every earlier state, the call Parse() makes in the -noast file has
+    an execution, it is the only one, and it returns the verdict and the offset of the PEG semantics of the grammar as
+    written - which by C01_generated_parser_correct is what the default parser returns (Proofs/ParseTop.v). *)
+Theorem C07_generated_noast_parser_correct :
+  forall g tab rank, wf_b g tab rank = true -> good_grammar g ->
+  (forall r b, nth_error g r = Some (RBody b) -> ranges_ok b = true) ->
+  grammar_alt2 g -> closed_names g ->
+  forall ptx buf penv, good_buf buf -> valid_buf buf ->
+  forall inline sw rb st0,
+    (forall rb0, nth_error (tree_of sw g) ptx = Some rb0 -> rb0 = RNil) ->
+    nth_error g 0 = Some rb -> rb <> RNil ->
+    exists n res evs st',
+      peg_parse g ptx buf penv n 0 = Some (res, evs) /\
+      xcall buf penv (mk_opts false false inline (tree_of sw g)) (gen_fn_noast (tree_of sw g) ptx inline) 0 (reset st0)
+            (Ret (match res with Fail => false | Succ _ _ => true end) st') /\
+      (forall out, xcall buf penv (mk_opts false false inline (tree_of sw g)) (gen_fn_noast (tree_of sw g) ptx inline) 0 (reset st0) out ->
+                   out = Ret (match res with Fail => false | Succ _ _ => true end) st') /\
+      match res with Succ p _ => pos st' = p /\ p <= length buf | Fail => True end.
+Proof. exact generated_noast_parser_correct. Qed.
+Print Assumptions C07_generated_noast_parser_correct.
 
 (** non-vacuity: on "aby" the action of the abandoned first alternative R1 'x' DOES run inline
     (three times in all: once per attempt of R1), each time with text = [0,2) *)
